@@ -67,20 +67,25 @@ def describe(assign):
     return ", ".join(f"{T.show(k)[:60]}={'T' if v else 'F'}" for k, v in assign.items()) or "(no conditions)"
 
 
-def run(ctx):
+def run(ctx, shared=True):
     repo = ctx.repo
     from ..report import reuse as _reuse
     from . import c08 as _c08
     from . import c07 as _c07
-    _reuse(ctx, _c07.run, ("C07.opts",), "C06tgt", "option rule shared with C07: a target-efficiency setter that leaves the ramp flag and the stored value inconsistent makes "
-           "current_target_efficiency index a float (the run raises) or use a stale ramp")
-    _reuse(ctx, _c07.run, ("C07.eff", "C07.init"), "C06eff", "efficiency rule shared with C07: the bisection can only advance if the efficiency it compares with the target is ESS / (size of the population "
-           "it was computed on); divided by anything larger it stays below the target for every temperature and the schedule never moves")
+    if shared:
+        _reuse(ctx, _c07.run, ("C07.opts",), "C06tgt", "option rule shared with C07: a target-efficiency setter that leaves the ramp flag and the stored value inconsistent makes "
+               "current_target_efficiency index a float (the run raises) or use a stale ramp")
+    if shared:
+        _reuse(ctx, _c07.run, ("C07.eff", "C07.init"), "C06eff", "efficiency rule shared with C07: the bisection can only advance if the efficiency it compares with the target is ESS / (size of the population "
+               "it was computed on); divided by anything larger it stays below the target for every temperature and the schedule never moves")
     from . import c11 as _c11
-    _reuse(ctx, _c11.run, ("C11.restore",), "C06res", "restore rule shared with C11: the step cap counts iterations, so a resumed run must continue from the checkpointed iteration and temperature",
-           only=lambda f: "iteration" in f.key or "beta" in f.key)
-    _reuse(ctx, _c11.run, ("C11.snapshot",), "C06ckpt", "snapshot rule shared with C11: a checkpoint that shares the live temperature list makes a resumed run skip or repeat a step")
-    _reuse(ctx, lambda c: _c08.inf_rule(c), ("C08.inf",), "C06w", "incremental-weight rule shared with C08: a NaN weight makes log_weights raise inside determine_beta / resample")
+    if shared:
+        _reuse(ctx, _c11.run, ("C11.restore",), "C06res", "restore rule shared with C11: the step cap counts iterations, so a resumed run must continue from the checkpointed iteration and temperature",
+               only=lambda f: "iteration" in f.key or "beta" in f.key)
+    if shared:
+        _reuse(ctx, _c11.run, ("C11.snapshot",), "C06ckpt", "snapshot rule shared with C11: a checkpoint that shares the live temperature list makes a resumed run skip or repeat a step")
+    if shared:
+        _reuse(ctx, lambda c: _c08.inf_rule(c), ("C08.inf",), "C06w", "incremental-weight rule shared with C08: a NaN weight makes log_weights raise inside determine_beta / resample")
     smc = repo.cls(SMC)
     db = smc.resolve("determine_beta")
     sample = smc.methods.get("sample")
